@@ -106,7 +106,25 @@ func (p *planner) plan() (shared.SQLRequestPlanner, error) {
 		ClickhouseRequestPlanner: p.samplesPlanner,
 		isMatrix:                 p.script.StrSelector == nil,
 	}*/
-	return p.samplesPlanner, nil
+	return &withCacheResetPlanner{
+		Main:   p.samplesPlanner,
+		Caches: []**sql.With{&p.fpCache, &p.labelsCache},
+	}, nil
+}
+
+// withCacheResetPlanner is the root of a plan: the WITH caches shared by the planners below are only valid
+// during one Process pass (they hold sub-selects rendered for that pass' time window), so every pass starts
+// with empty caches.  Without it a plan executed twice (live tail) reuses `labels_N` as its own source.
+type withCacheResetPlanner struct {
+	Main   shared.SQLRequestPlanner
+	Caches []**sql.With
+}
+
+func (w *withCacheResetPlanner) Process(ctx *shared.PlannerContext) (sql.ISelect, error) {
+	for _, c := range w.Caches {
+		*c = nil
+	}
+	return w.Main.Process(ctx)
 }
 
 func (p *planner) planMetrics15Shortcut(script any) error {
